@@ -718,7 +718,9 @@ fn probe_datum(schema: &Schema, kind: &'static str, len: u64, isz: u64, per_item
 fn probe_fixed(kind: &'static str, n: u64) -> Probe {
     let supplied = n <= SUPPLY_MAX;
     let d: Vec<u8> = if supplied { vec![0x64; n as usize] } else { vec![] };
-    let schema = match Schema::parse_str(&format!(r#"{{"type":"fixed","name":"f","size":{n}}}"#)) {
+    // "decimal-fixed": the same fixed carrying a decimal (another decoder arm; precision 1 fits every size >= 1)
+    let logical = if kind == "decimal-fixed" && n >= 1 { r#","logicalType":"decimal","precision":1"# } else { "" };
+    let schema = match Schema::parse_str(&format!(r#"{{"type":"fixed","name":"f","size":{n}{logical}}}"#)) {
         Ok(s) => s,
         Err(_) => return Probe { kind, len: n, isz: 1, supplied, out: "wrong" },
     };
@@ -734,7 +736,11 @@ fn probe_fixed(kind: &'static str, n: u64) -> Probe {
         let r = guarded(std::panic::AssertUnwindSafe(|| {
             GenericDatumReader::builder(&schema).human_readable(false).build().and_then(|r| r.read_value(&mut &d[..]))
         }));
-        classify(r, |v| matches!(v, Value::Fixed(sz, b) if *sz as u64 == n && b.len() as u64 == n))
+        classify(r, |v| match v {
+            Value::Fixed(sz, b) => *sz as u64 == n && b.len() as u64 == n,
+            Value::Decimal(d) => <Vec<u8>>::try_from(d.clone()).map(|b| b.len() as u64 == n).unwrap_or(false),
+            _ => false,
+        })
     };
     Probe { kind, len: n, isz: 1, supplied, out }
 }
@@ -916,6 +922,7 @@ fn cmd_limit1(limit: u64, mode: &str, big: bool) -> i32 {
             probes.push(probe_datum(&Schema::Bytes, "deser-bytes", len, 1, &[0x61], false));
             probes.push(probe_snappy_declared(len));
             probes.push(probe_fixed("fixed", len));
+            probes.push(probe_fixed("decimal-fixed", len));
             probes.push(probe_fixed("deser-fixed", len));
             probes.push(probe_deser_coll("deser-array", len));
             probes.push(probe_deser_coll("deser-map", len));
